@@ -924,3 +924,150 @@ void sweep_unicode_escapes(int part, int nparts, int all_pairs, sweep_out_t *o)
         o->nontrivial++;
     }
 }
+
+/* ---------------------------------------------------------------------------------------------------------
+ * C19: very large objects.  Builds an object of n members whose keys come in a chosen order, sorts it (directly or
+ * through a utility that sorts internally), and checks natively: key order, member count, sibling chain and tail link,
+ * that an append lands at the end and nothing is lost, and that a second sort changes nothing.  Returns 0 or a code
+ * (message in msg).  A crash (stack exhaustion in a recursive sort) kills the worker and is triaged as a crash.
+ *   order: 0 descending, 1 ascending, 2 pseudo-random, 3 all keys equal, 4 runs of two descending, 5 descending with duplicates,
+ *          6 mixed case (k/K alternating), descending
+ *   how:   0 cJSONUtils_SortObject[CaseSensitive], 1 patch 'test' on the whole document, 2 GeneratePatches, 3 GenerateMergePatch */
+static int fold_cmp(const char *a, const char *b, int cs)
+{
+    if (cs)
+    {
+        return strcmp(a, b);
+    }
+    for (;; a++, b++)
+    {
+        int x = (unsigned char)*a;
+        int y = (unsigned char)*b;
+        if (x >= 'A' && x <= 'Z') x += 32;
+        if (y >= 'A' && y <= 'Z') y += 32;
+        if (x != y) return x < y ? -1 : 1;
+        if (x == 0) return 0;
+    }
+}
+
+static int big_chain_ok(const cJSON *obj, long expect, const char **why)
+{
+    const cJSON *c = obj->child;
+    const cJSON *last = NULL;
+    long count = 0;
+    if (c == NULL)
+    {
+        if (expect != 0) { *why = "object lost all its members"; return 0; }
+        return 1;
+    }
+    for (; c != NULL; c = c->next)
+    {
+        if (c->next != NULL && c->next->prev != c) { *why = "a backward link does not mirror its forward link"; return 0; }
+        last = c;
+        if (++count > expect + 8) { *why = "sibling chain longer than the member count (cycle?)"; return 0; }
+    }
+    if (count != expect) { *why = "member count changed"; return 0; }
+    if (obj->child->prev != last) { *why = "the first member's backward link does not designate the last member"; return 0; }
+    return 1;
+}
+
+int shim_big_sort(long n, int order, int cs, int how, char *msg, size_t msglen)
+{
+    cJSON *obj = cJSON_CreateObject();
+    cJSON *other = NULL;
+    cJSON *patch = NULL;
+    const char *why = "";
+    const cJSON *c;
+    unsigned long x = 88172645463325252UL;
+    long i;
+    int rc = 0;
+    char key[32];
+    if (obj == NULL) { snprintf(msg, msglen, "harness: allocation"); return -1; }
+    for (i = 0; i < n; i++)
+    {
+        long v;
+        switch (order)
+        {
+            case 0: v = n - i; break;
+            case 1: v = i; break;
+            case 2: x ^= x << 13; x ^= x >> 7; x ^= x << 17; v = (long)(x % 100000000UL); break;
+            case 3: v = 7; break;
+            case 4: v = (i ^ 1); break;
+            case 5: v = (n - i) / 3; break;
+            default: v = n - i; break;
+        }
+        snprintf(key, sizeof(key), "%c%08ld", (order == 6 && (i & 1)) ? 'K' : 'k', v);
+        if (!cJSON_AddItemToObject(obj, key, cJSON_CreateNumber((double)i))) { rc = -1; why = "harness: build"; goto done; }
+    }
+    if (how != 0)
+    {
+        other = cJSON_Duplicate(obj, 1);
+        if (other == NULL && n <= 10000) { rc = -1; why = "harness: duplicate"; goto done; }
+    }
+    switch (how)
+    {
+        case 0:
+            if (cs) cJSONUtils_SortObjectCaseSensitive(obj); else cJSONUtils_SortObject(obj);
+            break;
+        case 1:
+        {
+            cJSON *op = cJSON_CreateObject();
+            int status;
+            patch = cJSON_CreateArray();
+            cJSON_AddStringToObject(op, "op", "test");
+            cJSON_AddStringToObject(op, "path", "");
+            cJSON_AddItemToObject(op, "value", other);
+            other = NULL;
+            cJSON_AddItemToArray(patch, op);
+            status = cs ? cJSONUtils_ApplyPatchesCaseSensitive(obj, patch) : cJSONUtils_ApplyPatches(obj, patch);
+            if (status != 0 && order != 3 && order != 5 && (cs || order != 6)) { rc = 10; why = "patch 'test' of a document against its own copy failed"; goto done; }
+            break;
+        }
+        case 2:
+            patch = cs ? cJSONUtils_GeneratePatchesCaseSensitive(obj, other) : cJSONUtils_GeneratePatches(obj, other);
+            if (patch == NULL) { rc = 11; why = "GeneratePatches returned NULL"; goto done; }
+            if (cJSON_GetArraySize(patch) != 0 && order != 3 && order != 5 && (cs || order != 6)) { rc = 12; why = "non-empty patch between a document and its copy"; goto done; }
+            break;
+        default:
+            patch = cs ? cJSONUtils_GenerateMergePatchCaseSensitive(obj, other) : cJSONUtils_GenerateMergePatch(obj, other);
+            break;
+    }
+    if (!big_chain_ok(obj, n, &why)) { rc = 1; goto done; }
+    if (other != NULL && !big_chain_ok(other, n, &why)) { rc = 2; goto done; }
+    if (how == 0)
+    {
+        for (c = obj->child; c != NULL && c->next != NULL; c = c->next)
+        {
+            if (fold_cmp(c->string, c->next->string, cs) > 0) { rc = 3; why = "keys are not in non-decreasing order after the sort"; goto done; }
+        }
+    }
+    /* an append must land at the end; nothing may be lost */
+    {
+        cJSON *extra = cJSON_CreateString("appended");
+        const cJSON *lastc;
+        if (!cJSON_AddItemToObject(obj, "zzzz appended afterwards", extra)) { rc = 4; why = "append after the sort refused"; goto done; }
+        if (!big_chain_ok(obj, n + 1, &why)) { rc = 5; goto done; }
+        lastc = obj->child->prev;
+        if (lastc != extra) { rc = 6; why = "the appended member is not the last member"; goto done; }
+        if (cJSON_GetArraySize(obj) != (int)(n + 1)) { rc = 7; why = "size after append is not n+1"; goto done; }
+        if (cJSON_DetachItemViaPointer(obj, extra) != extra) { rc = 8; why = "detaching the appended member failed"; goto done; }
+        cJSON_Delete(extra);
+        if (!big_chain_ok(obj, n, &why)) { rc = 9; goto done; }
+    }
+    if (how == 0)
+    {
+        /* idempotence of the key sequence */
+        uint64_t h1 = 1469598103934665603ULL, h2 = 1469598103934665603ULL;
+        for (c = obj->child; c != NULL; c = c->next) { const char *s; for (s = c->string; *s; s++) { h1 ^= (unsigned char)(cs ? *s : ((*s >= 'A' && *s <= 'Z') ? *s + 32 : *s)); h1 *= 1099511628211ULL; } h1 *= 31; }
+        if (cs) cJSONUtils_SortObjectCaseSensitive(obj); else cJSONUtils_SortObject(obj);
+        for (c = obj->child; c != NULL; c = c->next) { const char *s; for (s = c->string; *s; s++) { h2 ^= (unsigned char)(cs ? *s : ((*s >= 'A' && *s <= 'Z') ? *s + 32 : *s)); h2 *= 1099511628211ULL; } h2 *= 31; }
+        if (h1 != h2) { rc = 13; why = "a second sort changes the key sequence"; goto done; }
+        if (!big_chain_ok(obj, n, &why)) { rc = 14; goto done; }
+    }
+done:
+    snprintf(msg, msglen, "%s", why);
+    cJSON_Delete(obj);
+    cJSON_Delete(other);
+    cJSON_Delete(patch);
+    return rc;
+}
